@@ -62,7 +62,17 @@ TABLE = [
 ]
 TABLE = [(re.compile(a), k, re.compile(c), re.compile(o, re.S), r) for a, k, c, o, r in TABLE]
 
-RNG_CONSUMERS = {"SliceRandom::choose", "rust_value::primitive_example", "scale_value::primitive_type_def_example", "Rng::gen_range", "Rng::gen"}
+RNG_CONSUMERS = {"SliceRandom::choose", "Rng::gen_range", "Rng::gen"}
+
+
+def _local_rng_consumer(P, graph, callee):
+    """a function of the description crate that takes the rng and from which no transformer method is reachable: it cannot borrow the
+    state again while it holds the temporary"""
+    b = P.body(callee) if callee else None
+    if b is None or "body" not in b or not any("Rng" in t or "rand::" in t for t in b.get("inputs", [])):
+        return False
+    reach = k10.reachable(graph, [b["path"]])
+    return not any("transformer::Transformer" in r for r in reach)
 
 
 def arm_context(fn, node):
@@ -345,7 +355,7 @@ def refcell_ok(ctx, P, s, N, fn, graph, extra):
     for p in reversed(path[:-1]):
         if p.get("k") in ("Call", "MethodCall"):
             cs = cshort(p.get("callee", p.get("name", "")))
-            if cs in RNG_CONSUMERS:
+            if cs in RNG_CONSUMERS or _local_rng_consumer(P, graph, p.get("callee")):
                 return True, "rng borrow is a temporary argument of `%s`, which does not touch the transformer" % cs
             if cs in ("RefCell::borrow_mut", "DerefMut::deref_mut", "Deref::deref"):
                 continue
